@@ -36,7 +36,7 @@ def run(c, facts, tier):
     ff = facts.fn("Expression::complex_frames")
     r2 = treeq.check_exists(facts, ff)
     c.ob("C10.predicate", ff.key, "recursive exists over every operator variant", r2["ok"], "; ".join(r2["problems"]) or "complete recursion; wildcard hides only %s" % r2["hidden"])
-    lp = c19.frames_leaf(facts, r2["leaf"], fspec)
+    lp = c19.frames_leaf(facts, r2, fspec)
     c.ob("C10.predicate", ff.key, "per-action rule equals the statement", not lp, "; ".join(lp) or "file-writing ×4, PrintNull → framed; PrintFormatted → last element not a newline escape; others plain", witness="-fprint out.txt" if lp else None)
     # C10.choice
     framed, plain = framed_manager(facts)
